@@ -344,7 +344,16 @@ def make_worker(tasks, ctl, maxtasks=None, synq_answers=None, counter=None, on_e
                    on_ready_counter=counter, max_memory_per_child=max_memory)
     if instrumented:
         import types
-        wk.workloop = types.MethodType(WORKLOOP_I, wk)
+        base = types.MethodType(WORKLOOP_I, wk)
+    else:
+        base = wk.workloop
+
+    def workloop(debug=bp.debug, now=None, pid=None):
+        # the loop's default clock is time.monotonic, bound when the function was defined; CrossHair models that call as a
+        # symbolic float, which made the ACK's pickling take paths a native replay never takes ("does not reproduce natively").
+        # The acceptance time comes from the controller's clock instead.
+        return base(debug=debug, now=now or ctl.now, pid=pid)
+    wk.workloop = workloop
     wk.after_fork = lambda: None
     return wk, inq, outq, synq
 
